@@ -92,5 +92,30 @@ pub fn evaluate(data: &str, expression: &str) -> bool {
     let document = scraper::Html::parse_fragment(data);
     let mut select = document.select(&selector);
 
-    select.next().is_some()
+    let result = select.next().is_some();
+
+    #[cfg(feature = "verif-hooks")]
+    verif_hooks::record(data, expression, result);
+
+    result
+}
+
+/// Log of the selector evaluations of the current thread, used by the verification harness (/verif)
+/// to feed its model with the answers of the selector engine. Never compiled by default.
+#[cfg(feature = "verif-hooks")]
+pub mod verif_hooks {
+    use std::cell::RefCell;
+
+    thread_local! {
+        static EVALUATIONS: RefCell<Vec<(String, String, bool)>> = const { RefCell::new(Vec::new()) };
+    }
+
+    pub(super) fn record(data: &str, expression: &str, result: bool) {
+        EVALUATIONS.with(|log| log.borrow_mut().push((data.to_string(), expression.to_string(), result)));
+    }
+
+    /// Returns and clears the (fragment, selector, result) triples evaluated by this thread.
+    pub fn drain() -> Vec<(String, String, bool)> {
+        EVALUATIONS.with(|log| std::mem::take(&mut *log.borrow_mut()))
+    }
 }
